@@ -118,6 +118,7 @@ def parseEv : List String → Option Ev
   | ["parallel", _] => some .nop
   | ["gpumem", _] => some .nop
   | ["closedelay", _] => some .nop
+  | ["closefail", _, _] => some .nop     -- the mock's Close returns an error from now on: the scheduler ignores it
   | _ => none
 
 /-- split a token list on a separator token -/
